@@ -441,6 +441,9 @@ def jobs(tier, seed):
         out.append({"part": "garbage", "calls": calls, "tier": tier})
     out.append({"part": "client", "tier": tier})
     out.append({"part": "sync", "tier": tier})
+    sets = call_sets(tier)
+    for lo in range(0, len(sets), 6):
+        out.append({"part": "realsocket", "callsets": sets[lo : lo + 6], "tier": tier})
     for sizes in ([2, 17, 64, 65], [100, 257], [1000] if tier == "quick" else [1000, 5000]):
         out.append({"part": "burst", "sizes": sizes, "tier": tier})
     return out
@@ -807,6 +810,108 @@ def run_burst(spec, acc):
                     env.close()
 
 
+def run_realsocket(spec, acc):
+    """Conformance of the in-memory transport: the same handler behind the real SocketRPCServer on
+    a real unix socket, called through the real asynchronous and synchronous clients on a real
+    event loop; every call sequence of the menu, gated calls released in both orders. The replies
+    must be what the exploration on in-memory streams expects for these calls."""
+    import os
+    import threading
+
+    from stepup.core.rpc import RemoteFailure, SocketAsyncRPCClient, SocketRPCServer, SocketSyncRPCClient
+
+    from ..runner import scratch_dir
+
+    class RealEnv:
+        def __init__(self):
+            self.gates = {}
+            self.barriers = {}
+
+        async def gate(self, tag):
+            fut = asyncio.get_running_loop().create_future()
+            self.gates[tag] = fut
+            try:
+                await fut
+            finally:
+                self.gates.pop(tag, None)
+
+    def classify(name, args, res):
+        exp = expected_reply(name, args)
+        if exp[0] == "value":
+            return res == exp[1]
+        if exp[0] == "usage":
+            return isinstance(res, BaseException) and type(res).__name__ == exp[1]
+        # internal errors, refused and unpicklable results all surface as an exception that is not
+        # the handler's own usage error
+        return isinstance(res, BaseException) and type(res).__name__ != "GraphError"
+
+    async def session(calls, order):
+        env = RealEnv()
+        handler = make_handler(env)
+        path = os.path.join(scratch_dir("c16s"), "sock")
+        stop = asyncio.Event()
+        server = SocketRPCServer(handler, path)
+        stask = asyncio.create_task(server.serve(stop))
+        for _ in range(200):
+            if os.path.exists(path):
+                break
+            await asyncio.sleep(0.005)
+        client = SocketAsyncRPCClient(path)
+        tasks = [asyncio.create_task(client(n, *a)) for n, a in calls]
+        gated = [a[0] for n, a in calls if n in ("slow", "doomed")]
+        for _ in range(400):
+            if all(g in env.gates for g in gated):
+                break
+            await asyncio.sleep(0.005)
+        for tag in (gated if order == 0 else list(reversed(gated))):
+            fut = env.gates.get(tag)
+            if fut is not None and not fut.done():
+                fut.cancel() if tag.startswith("x") else fut.set_result(None)
+            await asyncio.sleep(0.005)
+        done = await asyncio.wait_for(asyncio.gather(*tasks, return_exceptions=True), 20)
+        # the synchronous client, from a thread, for the calls that need no gate
+        sync_results = []
+        plain = [(n, a) for n, a in calls if n not in ("slow", "doomed", "unpicklable")]
+
+        def sync_part():
+            c = SocketSyncRPCClient(path)
+            try:
+                for n, a in plain:
+                    try:
+                        sync_results.append(c(n, *a))
+                    except BaseException as exc:  # noqa: BLE001
+                        sync_results.append(exc)
+            finally:
+                c.close()
+
+        th = threading.Thread(target=sync_part)
+        th.start()
+        while th.is_alive():
+            await asyncio.sleep(0.005)
+        await client.close()
+        stop.set()
+        await asyncio.wait_for(stask, 20)
+        return done, plain, sync_results
+
+    for calls in spec["callsets"]:
+        calls = [(n, tuple(a)) for n, a in calls]
+        for order in (0, 1):
+            done, plain, sync_results = asyncio.run(session(calls, order))
+            acc.evaluations += 1
+            acc.validated += 1
+            acc.nontrivial.add(h8(["real", calls, order]))
+            # an unpicklable result ends the connection after its sentinel: the other calls of the
+            # same connection may then lose their reply (the in-memory judge allows the same)
+            lossy = any(n == "unpicklable" for n, _ in calls)
+            bad = [(n, a, repr(r)[:120]) for (n, a), r in zip(calls, done)
+                   if not classify(n, a, r) and not (lossy and isinstance(r, ConnectionError))]
+            bad += [("sync:" + n, a, repr(r)[:120]) for (n, a), r in zip(plain, sync_results) if not classify(n, a, r)]
+            if bad:
+                acc.violation(f"C16|realsocket|{[c[0] for c in calls]}",
+                              {"why": "replies over the real unix socket differ from what the in-memory exploration expects",
+                               "calls": calls, "release_order": order, "unexpected": bad}, None)
+
+
 def run_job(spec):
     import logging
 
@@ -829,6 +934,8 @@ def run_job(spec):
         run_sync(spec, acc)
     elif part == "burst":
         run_burst(spec, acc)
+    elif part == "realsocket":
+        run_realsocket(spec, acc)
     return acc
 
 
